@@ -3515,7 +3515,8 @@ class Network(Cached):
                 subnet.nsi_degree()
                 Aplus = (A + np.identity(N)).astype(int)
                 if stopping_mode == "twinness":
-                    twinness = self.nsi_twinness()
+                    #  twinness within the component, in its node numbering
+                    twinness = subnet.nsi_twinness()
 
                 #  Get the sparse P matrix that gets modified and inverted
                 sp_P = (subnet.sp_nsi_diag_k_inv() * subnet.sp_Aplus()
